@@ -80,7 +80,7 @@ func (f fault) String() string { return fmt.Sprintf("%s(%d)+%v", f.Kind, f.Arg, 
 var faultKinds = []string{"isolate-leader", "isolate-node", "split", "heal", "stepdown", "crash", "crash-leader", "restart", "delay", "flap", "flap-leader", "isolate-leader",
 	"reset", "reset-leader", "reset-storm", "delay"}
 
-var flakyKinds = []string{"delay", "reset-storm", "reset-storm", "reset", "reset-leader", "stepdown", "delay-leader"}
+var flakyKinds = []string{"delay", "reset-storm", "reset-storm-leader", "reset-storm-leader", "reset", "reset-leader", "stepdown", "delay-leader"}
 
 type plan struct {
 	Flaky   bool // transport-flakiness profile: delays and connection resets only, more increments
@@ -112,6 +112,11 @@ func genPlan(rt *rapid.T) plan {
 		p.Clients = append(p.Clients, ops)
 	}
 	nf := rapid.IntRange(1, 6).Draw(rt, "nfaults")
+	if p.Flaky {
+		// a slow leader link first: requests stay in flight long enough for resets to hit them
+		p.Faults = append(p.Faults, fault{Kind: "delay-leader", Arg: rapid.IntRange(5, 31).Draw(rt, "arg0"), After: 40 * time.Millisecond})
+		nf--
+	}
 	for i := 0; i < nf; i++ {
 		kinds := faultKinds
 		if p.Flaky {
@@ -479,7 +484,12 @@ func (w *world) runFault(f fault, size int) {
 			w.c.Net.DropNode(l)
 			desc += " " + l
 		}
-	case "reset-storm":
+	case "reset-storm", "reset-storm-leader":
+		if f.Kind == "reset-storm-leader" {
+			if l := leaderName(); l != "" {
+				pick = l
+			}
+		}
 		// a flaky link: the node's connections are reset every few ms for a while
 		n := 15 + f.Arg
 		for i := 0; i < n; i++ {
